@@ -1783,8 +1783,13 @@ class ContentFile(File):
 
     def _calc_hash(self) -> str:
         # Use filesystem.open() to avoid triggering a recursive hash update.
-        with self.filesystem.open(self.path, mode="rb") as infile:
-            content_hash = hash_stream(infile)
+        try:
+            with self.filesystem.open(self.path, mode="rb") as infile:
+                content_hash = hash_stream(infile)
+        except FileNotFoundError:
+            # A missing file hashes deterministically (as File does), so that a deleted
+            # ContentFile is seen as invalid instead of failing the validity check.
+            content_hash = "missing"
         return hash_struct([self.type_basename, self.path, content_hash])
 
 
